@@ -65,6 +65,8 @@ pub struct Snapshot {
     pub get_senders: (usize, usize),
     /// (entries in the in-flight vector, entries that have not expired)
     pub inflight: (usize, usize),
+    /// the socket's adaptive request timeout at the time of the snapshot
+    pub request_timeout: std::time::Duration,
     pub cache_len: usize,
     /// Per cached lookup: (target, is find_node, is get_signed_peers, dht_size_estimate,
     /// responders_dht_size_estimate, subnets), least recently used last.
@@ -95,6 +97,7 @@ pub fn snapshot(dht: &Dht) -> flume::Receiver<Snapshot> {
                 actor.get_senders.values().map(|v| v.len()).sum(),
             ),
             inflight: actor.socket.verif_inflight(),
+            request_timeout: actor.socket.verif_request_timeout(),
             cache_len: core.cached_iterative_queries.len(),
             cache: core.verif_cache(),
             table: TableSnapshot::new(&core.routing_table),
